@@ -166,8 +166,18 @@ class Translator:
             if isinstance(e.value, complex):
                 if e.value == 1j:
                     return ("(Cx.mk (lit 0 : α) (lit 1 : α))", "C")
+                if e.value.imag == 0:
+                    # a complex constant whose imaginary part is literally zero (`1+0j`): read as the real number
+                    # (assumption recorded in DESIGN §4: NumPy's complex arithmetic on such values agrees with the real one)
+                    return (rconst(e.value.real), "R")
                 raise Unsupported("complex constant %r" % (e.value,))
             return (rconst(e.value), "R")
+        if isinstance(e, ast.BinOp) and isinstance(e.left, ast.Constant) and isinstance(e.right, ast.Constant) \
+                and isinstance(e.op, (ast.Add, ast.Sub, ast.Mult)) \
+                and all(isinstance(c.value, (int, float, complex)) and not isinstance(c.value, bool) for c in (e.left, e.right)):
+            a_, b_ = e.left.value, e.right.value
+            folded = a_ + b_ if isinstance(e.op, ast.Add) else a_ - b_ if isinstance(e.op, ast.Sub) else a_ * b_
+            return self.expr(ast.copy_location(ast.Constant(value=folded), e), env)
         src = ast.unparse(e)
         v = self.lookup(src, env)       # a name, an attribute chain, or a whole expression the specification treats as an input
         if v is not None:
@@ -211,6 +221,8 @@ class Translator:
                     return ("(Ext.neg %s)" % v[0], "E")
                 if v[1] == "I":
                     return ("(-%s)" % v[0], "I")
+                if v[1] == "N":
+                    return ("(-%s)" % self.coerce(v, "R"), "R")
                 raise Unsupported("negation of %s" % v[1])
             raise Unsupported("unary operator")
         if isinstance(e, ast.BoolOp):
@@ -306,13 +318,18 @@ class Translator:
             if ex[1] == "B" and base[1] == "R" and ex[0] in ("true", "false"):
                 return (base[0] if ex[0] == "true" else "(lit 1 : α)", "R")
             if ex[1] == "N" and base[1] == "C":
-                return ("(Cx.npow %s %s)" % (base[0], ex[0]), "C")
+                return ("(cpow %s %s)" % (base[0], ex[0]), "C")      # HoloModel/Fourier.lean: repeated multiplication
             raise Unsupported("power %s" % ast.unparse(e))
         a, b = self.expr(e.left, env), self.expr(e.right, env)
         ta, tb = a[1], b[1]
         if isinstance(ta, tuple) and tb == "R" and all(t == "R" for t in ta) and isinstance(op, (ast.Mult, ast.Div)):
             sym = "*" if isinstance(op, ast.Mult) else "/"
             return (tuple("(%s %s %s)" % (x, sym, b[0]) for x in a[0]), ta)       # an array times a scalar: elementwise
+        if isinstance(op, ast.Mult) and "B" in (ta, tb) and (ta in ("R", "C") or tb in ("R", "C")):
+            # a value times a boolean mask (NumPy: True -> 1, False -> 0); exact for finite values
+            val, mask = (a, b) if tb == "B" else (b, a)
+            zero = "(lit 0 : α)" if val[1] == "R" else "(Cx.mk (lit 0 : α) (lit 0 : α))"
+            return ("(if %s then %s else %s)" % (mask[0], val[0], zero), val[1])
         if ta == "I" or tb == "I":
             if {ta, tb} <= {"I", "R"}:
                 def toint(v):
@@ -382,7 +399,7 @@ class Translator:
     def call(self, e, env):
         fsrc = ast.unparse(e.func)
         args = e.args
-        if e.keywords:
+        if e.keywords and fsrc not in self.spec.get("wrap_calls", []):
             raise Unsupported("keyword call %s" % fsrc)
         short = fsrc.split(".")[-1] if fsrc.split(".")[0] in ("np", "numpy", "math") else fsrc
         if short == "exp" and len(args) == 1 and isinstance(args[0], ast.BinOp) and isinstance(args[0].op, ast.Mult) \
@@ -391,6 +408,22 @@ class Translator:
             if v[1] == "R":
                 return ("(Cx.expI %s)" % v[0], "C")
             raise Unsupported("exp(1j * non-real)")
+        if short == "exp" and len(args) == 1:
+            stripped = self.strip_imag_unit(args[0])
+            if stripped is not None:
+                sign, rest = stripped          # np.exp(±1j * a * b / c …) with a real product: Euler's form
+                v = self.expr(rest, env)
+                if v[1] == "R":
+                    return ("(Cx.expI %s)" % (v[0] if sign > 0 else "(-%s)" % v[0]), "C")
+                raise Unsupported("exp(1j * non-real)")
+        if short == "linspace" and len(args) == 3:
+            a, b, n = [self.expr(x, env) for x in args]
+            if n[1] == "N":
+                # the arguments of np.linspace; linspace itself is `linspaceAt` of HoloModel/Fourier.lean (tied by correspondence)
+                return ((self.coerce(a, "R"), self.coerce(b, "R"), n[0]), ("R", "R", "N"))
+            raise Unsupported("linspace count")
+        if fsrc in self.spec.get("wrap_calls", []) and len(args) >= 1:
+            return self.expr(args[0], env)       # a container around its first argument (an array is read as one of its entries)
         if short in ("log", "sqrt", "exp", "sin", "cos") and len(args) == 1:
             v = self.expr(args[0], env)
             if v[1] == "R":
@@ -452,6 +485,43 @@ class Translator:
             return self.inline_method(fn, owner, args, env)
         raise Unsupported("call %s" % fsrc)
 
+    @staticmethod
+    def strip_imag_unit(e):
+        """`±1j * a * b / c * …` (left-associated product chain starting with the imaginary unit) -> (sign, a * b / c * …)"""
+        import copy
+
+        def unit(x):
+            if isinstance(x, ast.Constant) and x.value == 1j:
+                return 1
+            if isinstance(x, ast.UnaryOp) and isinstance(x.op, ast.USub) and isinstance(x.operand, ast.Constant) and x.operand.value == 1j:
+                return -1
+            return 0
+        e = copy.deepcopy(e)
+        if not isinstance(e, ast.BinOp):
+            return None
+        if isinstance(e.op, ast.Mult) and unit(e.left):
+            return unit(e.left), e.right
+        node = e
+        while isinstance(node.left, ast.BinOp) and isinstance(node.op, (ast.Mult, ast.Div)):
+            child = node.left
+            if isinstance(child.op, ast.Mult) and unit(child.left):
+                sign = unit(child.left)
+                node.left = child.right
+                return sign, e
+            node = child
+        return None
+
+    def cond(self, test, env):
+        """a statement's condition as a Bool: Python truthiness of a float is `!= 0`, of a count `!= 0`"""
+        c = self.expr(test, env)
+        if c[1] == "B":
+            return c
+        if c[1] == "R":
+            return ("(!(decide (%s ≤ (lit 0 : α)) && decide ((lit 0 : α) ≤ %s)))" % (c[0], c[0]), "B")
+        if c[1] == "N":
+            return ("(%s != 0)" % c[0], "B")
+        raise Unsupported("condition is not boolean")
+
     def inline_method(self, fn, owner, args, env):
         """value of calling method `fn` of class `owner` on self with the given argument expressions (inlined)"""
         pars = [a.arg for a in fn.args.args[1:]]
@@ -502,6 +572,12 @@ class Translator:
 
     def static_test(self, test, env):
         """isinstance(x, Cls) decided by the spec; returns True/False/None(unknown)"""
+        fixed = self.spec.get("static", {})
+        if ast.unparse(test) in fixed:
+            return fixed[ast.unparse(test)]
+        if isinstance(test, ast.UnaryOp) and isinstance(test.op, ast.Not):
+            inner = self.static_test(test.operand, env)
+            return None if inner is None else (not inner)
         if isinstance(test, ast.Call) and ast.unparse(test.func) == "isinstance" and len(test.args) == 2:
             who = ast.unparse(test.args[0])
             known = self.spec.get("isinstance", {}).get(who)
@@ -586,9 +662,7 @@ class Translator:
         isnone = self.is_none_test(st.test, env)
         if isnone:
             raise Unsupported("`is None` inside a merged block")
-        c = self.expr(st.test, env)
-        if c[1] != "B":
-            raise Unsupported("condition is not boolean")
+        c = self.cond(st.test, env)
         eb = self.assign_block(st.body, env)
         eo = self.assign_block(st.orelse, env)
         if eb is None:
@@ -708,9 +782,7 @@ class Translator:
                     pad, env[key][0], pad, self.block(none_body + rest, env, indent + 1),
                     pad, var, self.block(some_body + rest, env_some, indent + 1))
             if self.has_exit(st.body) or self.has_exit(st.orelse):
-                c = self.expr(st.test, env)
-                if c[1] != "B":
-                    raise Unsupported("condition is not boolean")
+                c = self.cond(st.test, env)
                 return "%sif %s then\n%s\n%selse\n%s" % (
                     pad, c[0], self.block(st.body + rest, env, indent + 1), pad, self.block(st.orelse + rest, env, indent + 1))
             env2 = self.merge_if(st, env)
@@ -960,6 +1032,21 @@ MIE_SPECS = [
          ignore_params=["scatterer", "medium_index", "illum_polarization"]),
 ]
 
+PROPAGATION_SPECS = [
+    # one entry of the transfer function: the arrays d, m, n are read as one of their entries
+    dict(fn="trans_func", lean="trans_func", ret="C",
+         static={"hasattr(d, 'z')": True}, wrap_calls=["xr.DataArray", "ensure_array"],
+         params=[("med_wavelen", "lam", "R"), ("d", "d", "R"), ("cfsp", "cfsp", "N"), ("gradient_filter", "gf", "R"),
+                 ("ft_coord(schema.x)", "m", "R"), ("ft_coord(schema.y)", "n", "R")],
+         ignore_params=["schema"]),
+]
+FOURIER_SPECS = [
+    dict(fn="ft_coord", lean="ft_coord", ret=("R", "R", "N"),
+         params=[("get_spacing(c)", "spacing", "R"), ("len(c)", "dim", "N")], ignore_params=["c"]),
+    dict(fn="ift_coord", lean="ift_coord", ret=("R", "R", "N"),
+         params=[("get_spacing(c)", "spacing", "R"), ("len(c)", "dim", "N")], ignore_params=["c"]),
+]
+
 MODEL_SPECS = [
     # the array reductions are inputs: N = data.size, the mean log noise level, the sum of squared scaled residuals
     dict(cls="Model", fn="_lnlike", lean="Model_lnlike", ret="R", identity_calls=["ensure_scalar"],
@@ -977,6 +1064,8 @@ FILES = {
     "PyLens": ("holopy/scattering/theory/lens.py", ["HoloModel.CxExtra"], LENS_SPECS, "pyLensFailures"),
     "PyRule": ("holopy/scattering/interface.py", ["HoloModel.Cluster"], RULE_SPECS, "pyRuleFailures"),
     "PyModel": ("holopy/inference/model.py", ["HoloModel.Scalar"], MODEL_SPECS, "pyModelFailures"),
+    "PyPropagate": ("holopy/propagation/convolution_propagation.py", ["HoloModel.Fourier"], PROPAGATION_SPECS, "pyPropagateFailures"),
+    "PyFourier": ("holopy/core/process/fourier.py", ["HoloModel.Fourier"], FOURIER_SPECS, "pyFourierFailures"),
     "PyMie": ("holopy/scattering/theory/mie.py", ["HoloModel.Scalar"], MIE_SPECS, "pyMieFailures"),
 }
 
